@@ -2,7 +2,6 @@ package database
 
 import (
 	"fmt"
-	"sort"
 	"strconv"
 	"strings"
 
@@ -16,19 +15,12 @@ func (v *ScriptView) writeCreateSQLForATable(
 ) {
 	v.stringBuilder.WriteString(fmt.Sprintf("CREATE TABLE %s(\n", tableName))
 	var foreignKeyConstraints, primaryKeys, attrNames []string
-	var lineNumbers []int32
-	lineNumberMap := map[int32]string{}
 	for columnName := range table.AttrDefs {
-		column := table.AttrDefs[columnName]
-		lineNumber := column.GetSourceContext().GetStart().GetLine() // nolint:staticcheck
-		lineNumberMap[lineNumber] = columnName
-		lineNumbers = append(lineNumbers, lineNumber)
+		attrNames = append(attrNames, columnName)
 	}
-	sort.Slice(lineNumbers, func(i, j int) bool { return lineNumbers[i] < lineNumbers[j] })
-	for _, lineNo := range lineNumbers {
-		attrName := lineNumberMap[lineNo]
-		attrNames = append(attrNames, attrName)
-	}
+	sortNamesByLine(attrNames, func(columnName string) int32 {
+		return table.AttrDefs[columnName].GetSourceContext().GetStart().GetLine() // nolint:staticcheck
+	})
 	var tableData string
 	for _, attrName := range attrNames {
 		attrType := table.AttrDefs[attrName]
